@@ -26,6 +26,20 @@ if TYPE_CHECKING:
 
 logger = logging.getLogger(__name__)
 
+# The classes generated from the language compare structurally (==), and
+# assets and associations reference each other, which makes == both the wrong
+# question and, for some shapes, an endless recursion. Membership and removal
+# in the model therefore go by identity.
+def _contains_object(items, item) -> bool:
+    return any(element is item for element in items)
+
+def _remove_object(items, item) -> None:
+    for index, element in enumerate(items):
+        if element is item:
+            del items[index]
+            return
+    raise ValueError('list.remove(x): x not in list')
+
 @dataclass
 class AttackerAttachment:
     """Used to attach attackers to attack step entry points of assets"""
@@ -53,7 +67,7 @@ class AttackerAttachment:
         None, otherwise.
         """
         return next((ep_tuple for ep_tuple in self.entry_points
-                                 if ep_tuple[0] == asset), None)
+                                 if ep_tuple[0] is asset), None)
 
 
     def add_entry_point(
@@ -120,7 +134,7 @@ class AttackerAttachment:
                 )
 
             if not entry_point_tuple[1]:
-                self.entry_points.remove(entry_point_tuple)
+                _remove_object(self.entry_points, entry_point_tuple)
         else:
             logger.warning(
                 f'Failed to find entry points on asset "{asset.name}" '
@@ -228,7 +242,7 @@ class Model():
             'Remove "%s"(%d) from model "%s".',
             asset.name, asset.id, self.name
         )
-        if asset not in self.assets:
+        if not _contains_object(self.assets, asset):
             raise LookupError(
                 f'Asset "{asset.name}"({asset.id}) is not part'
                 f' of model"{self.name}".'
@@ -245,9 +259,9 @@ class Model():
         for attacker in self.attackers:
             entry_point_tuple = attacker.get_entry_point_tuple(asset)
             if entry_point_tuple:
-                attacker.entry_points.remove(entry_point_tuple)
+                _remove_object(attacker.entry_points, entry_point_tuple)
 
-        self.assets.remove(asset)
+        _remove_object(self.assets, asset)
 
         # Release the id and the name so that they can be used again
         self.asset_ids.discard(asset.id)
@@ -271,12 +285,12 @@ class Model():
             asset.name, asset.id, type(association)
         )
 
-        if asset not in self.assets:
+        if not _contains_object(self.assets, asset):
             raise LookupError(
                 f'Asset "{asset.name}"({asset.id}) is not part of model '
                 f'"{self.name}".'
             )
-        if association not in self.associations:
+        if not _contains_object(self.associations, association):
             raise LookupError(
                 f'Association is not part of model "{self.name}".'
             )
@@ -287,14 +301,14 @@ class Model():
         right_field = getattr(association, right_field_name)
         found = False
         for field in [left_field, right_field]:
-            if asset in field:
+            if _contains_object(field, asset):
                 found = True
                 if len(field) == 1:
                     # There are no other assets on this side,
                     # so we should remove the entire association.
                     self.remove_association(association)
                     return
-                field.remove(asset)
+                _remove_object(field, asset)
 
         if found:
             # The association still exists, but the asset is no longer part
@@ -321,7 +335,7 @@ class Model():
         )
 
         # Check if identical association already exists
-        if association in associations_same_type:
+        if _contains_object(associations_same_type, association):
             raise DuplicateModelAssociationError(
                 f"Identical association {association_type} already exists"
             )
@@ -403,7 +417,7 @@ class Model():
         association     - the association to remove from the model
         """
 
-        if association not in self.associations:
+        if not _contains_object(self.associations, association):
             raise LookupError(
                 f'Association is not part of model "{self.name}".'
             )
@@ -421,12 +435,12 @@ class Model():
             asset.associations = [assoc for assoc in asset.associations
                 if assoc is not association]
 
-        self.associations.remove(association)
+        _remove_object(self.associations, association)
 
         # Remove association from type->association mapping
         association_type = association.__class__.__name__
-        self._type_to_association[association_type].remove(
-            association
+        _remove_object(
+            self._type_to_association[association_type], association
         )
         # Remove type from type->association mapping if mapping empty
         if len(self._type_to_association[association_type]) == 0:
@@ -646,13 +660,15 @@ class Model():
                 self.get_association_field_names(association)
 
             if right_field_name == field_name and \
-                    asset in getattr(association, left_field_name):
+                    _contains_object(
+                        getattr(association, left_field_name), asset):
                 associated_assets.extend(
                     getattr(association, right_field_name)
                 )
 
             if left_field_name == field_name and \
-                    asset in getattr(association, right_field_name):
+                    _contains_object(
+                        getattr(association, right_field_name), asset):
                 associated_assets.extend(
                     getattr(association, left_field_name)
                 )
